@@ -150,6 +150,9 @@ func label(c *Case, v *vh.Violation, rejudge func(*Case) *vh.Violation) {
 				is17 = false
 			}
 		}
+		if is17 && strings.Contains(next, "-") {
+			is17 = false // the end tag of a custom element: that part of K17 is repaired in /repo, a recurrence is a new violation
+		}
 		if is17 && gone(&with) {
 			v.Signature = "K17:p-endtag-omitted-before:" + next + ":" + sig
 			return
